@@ -277,7 +277,9 @@ func isProto(err error) bool { _, ok := err.(ws.ProtocolError); return ok }
 // receive runs a frame sequence with the given RSV assignment through a Reader
 // with MessageState attached and checks every clause.
 // consume: 0 the message is read to its end, 1 thrown away with Discard at once, 2 after one byte.
-func receive(c *mon.C, sh []gen.Shape, rsvs []byte, side ref.Side, plan xport.Plan, consume int) bool {
+// mode: 0 an extended reader with the RFC header checks on; 1 the same with SkipHeaderCheck; 2 SkipHeaderCheck and a
+// State holding the side bit only - the attached message state is then all there is between the wire and the application.
+func receive(c *mon.C, sh []gen.Shape, rsvs []byte, side ref.Side, plan xport.Plan, consume int, mode int) bool {
 	c.Count(1)
 	withRsv := make([]gen.Shape, len(sh))
 	copy(withRsv, sh)
@@ -288,13 +290,13 @@ func receive(c *mon.C, sh []gen.Shape, rsvs []byte, side ref.Side, plan xport.Pl
 	stream, _, _ := gen.Encode(frames)
 	ms := &wsflate.MessageState{}
 	var interHdrs []ws.Header
-	rd := &wsutil.Reader{Source: xport.NewChunker(stream, plan), State: wsx.State(side, true, false), Extensions: []wsutil.RecvExtension{ms}}
+	rd := &wsutil.Reader{Source: xport.NewChunker(stream, plan), State: wsx.State(side, mode != 2, false), SkipHeaderCheck: mode != 0, Extensions: []wsutil.RecvExtension{ms}}
 	rd.OnIntermediate = func(h ws.Header, r io.Reader) error {
 		interHdrs = append(interHdrs, h)
 		_, err := io.Copy(io.Discard, r)
 		return err
 	}
-	det := map[string]interface{}{"frames": gen.ShapesKey(withRsv), "side": side, "plan": plan.String(), "consume": []string{"read", "discard", "read1+discard"}[consume]}
+	det := map[string]interface{}{"frames": gen.ShapesKey(withRsv), "side": side, "plan": plan.String(), "consume": []string{"read", "discard", "read1+discard"}[consume], "reader": []string{"extended", "extended+SkipHeaderCheck", "SkipHeaderCheck, side bit only"}[mode]}
 	// reference walk
 	fi := 0 // index of the next frame the main loop will see
 	for {
@@ -415,7 +417,7 @@ func receive(c *mon.C, sh []gen.Shape, rsvs []byte, side ref.Side, plan xport.Pl
 			return false
 		}
 	}
-	c.Classf("ok|%s|side%d", gen.ShapeClass(sh), side)
+	c.Classf("ok|%s|side%d|mode%d", gen.ShapeClass(sh), side, mode)
 	return true
 }
 
@@ -450,7 +452,7 @@ func subReceive() mon.Sub {
 					rsvs[i] = byte(y % 8)
 					y /= 8
 				}
-				if !receive(c, sh, rsvs, side, plans[(x+c.I)%len(plans)], (x+c.I)%3) {
+				if !receive(c, sh, rsvs, side, plans[(x+c.I)%len(plans)], (x+c.I)%3, (x/3+c.I)%3) {
 					return
 				}
 			}
@@ -484,7 +486,7 @@ func subReceiveRandom() mon.Sub {
 				}
 			}
 			plans := xport.Plans(c.Rng.Int63(), nil)
-			receive(c, sh, rsvs, []ref.Side{ref.SideServer, ref.SideClient}[c.Rng.Intn(2)], plans[c.Rng.Intn(len(plans))], c.Rng.Intn(3))
+			receive(c, sh, rsvs, []ref.Side{ref.SideServer, ref.SideClient}[c.Rng.Intn(2)], plans[c.Rng.Intn(len(plans))], c.Rng.Intn(3), c.Rng.Intn(3))
 		},
 	}
 }
